@@ -128,6 +128,17 @@ cdef class Dia(base.Data):
                 raise ValueError("shape must be a 2-tuple of positive ints")
             self.shape = shape
 
+        # Scipy also accepts diagonals that lie entirely outside of the matrix.
+        # They hold no element, and the routines working on the raw buffers
+        # assume that every stored diagonal crosses the matrix.
+        if self.num_diag:
+            inside = (offsets < self.shape[1]) & (offsets > -self.shape[0])
+            if not inside.all():
+                data = np.ascontiguousarray(data[inside])
+                offsets = np.ascontiguousarray(offsets[inside])
+                self.num_diag = offsets.shape[0]
+                self._max_diag = self.num_diag
+
         # Scipy support ``data`` with diag of any length. They can be sorter if
         # the last columns are empty or have extra unused columns at the end.
         if data.shape[0] != 0 and data.shape[1] != self.shape[1]:
